@@ -341,9 +341,20 @@ func RandomTree(r *Rng, depth int) *Ft {
 		if r.Chance(1, 2) {
 			// a value list f:(v1 OR v2 …) in a random association (right-nested groups get their parentheses from Print)
 			n := 2 + r.Intn(4)
+			if r.Chance(1, 12) {
+				// long lists around the sizes at which code switches to a bulk path (2^4, 2^5, 2^6)
+				n = Pick(r, []int{15, 16, 17, 18, 31, 32, 33, 34, 64, 65})
+			}
 			vals := make([]Leaf, n)
+			same := r.Chance(1, 2) // all values of one kind (all strings, all integers) now and then
+			first := Pick(r, PlainValueLeaves)
 			for i := range vals {
 				vals[i] = Pick(r, PlainValueLeaves)
+				if same && n > 6 {
+					for k := 0; k < 20 && vals[i].Kind != first.Kind; k++ {
+						vals[i] = Pick(r, PlainValueLeaves)
+					}
+				}
 			}
 			return &Ft{K: "eqGroup", F: Pick(r, FieldLeaves), E: OrChain(r, vals)}
 		}
